@@ -78,6 +78,8 @@ def known_signatures(prop):
             continue
         if "sig" in f:
             sigs[f["sig"]] = f
+        for x in f.get("sigs", []):
+            sigs[x] = f
         if "sig_file" in f:
             with open(os.path.join(ROOT, f["sig_file"])) as fh:
                 for line in fh:
@@ -146,6 +148,13 @@ def finish(ctx, res, level="model_checking"):
     return 1 if nviol else 0
 
 
+def pick(key, n):
+    """a choice among n that depends on the item only (not on which worker handles it or what that worker did before), so that
+    every run of a check makes the same choices"""
+    import zlib
+    return zlib.crc32(str(key).encode("utf-8", "replace")) % n
+
+
 _BUMPED = []
 
 
@@ -162,7 +171,7 @@ def process_noise(k=0):
             # once per process: push the library's global node-id counter past a size class (ids get longer, cross 2^16 / 10^5 ...)
             _BUMPED.append(1)
             from mathy_core.expressions import ConstantExpression as _C
-            for _ in range((1200, 70000, 140000, 9000)[(os.getpid() + k) % 4]):
+            for _ in range((1200, 70000, 140000, 9000)[k % 4]):
                 _C(1)
         p = ExpressionParser()
         t = p.parse("4x + 2y^3 - sgn(x)")
@@ -201,3 +210,29 @@ def process_noise(k=0):
                     pass
     except BaseException:  # noqa
         pass
+
+
+class Pool:
+    """multiprocessing.Pool-like map over worker processes that cannot hang silently: if a worker dies (killed, fatal signal) the
+    run fails as a machinery failure (BrokenProcessPool -> exit 2) instead of waiting forever for the lost task, and a map that
+    makes no progress for `stall` seconds is abandoned the same way."""
+
+    def __init__(self, n=16, stall=1500):
+        import concurrent.futures as cf
+        import multiprocessing as mp
+        self.n = n
+        self.stall = stall
+        self.ex = cf.ProcessPoolExecutor(max_workers=n, mp_context=mp.get_context("fork"))
+
+    def __enter__(self):
+        return self
+
+    def __exit__(self, *a):
+        self.ex.shutdown(wait=False, cancel_futures=True)
+        return False
+
+    def map(self, func, items, chunksize=1):
+        items = list(items)
+        if not items:
+            return []
+        return list(self.ex.map(func, items, chunksize=max(1, chunksize), timeout=self.stall))
